@@ -9,11 +9,14 @@
    track = the cursor tracker of RBFlushCols.v (which cells a list of terminal operations
    covers, given that printing advances by text_width, erasech(n, YES) moves to the end of the
    erased range and erasech(n, MAYBE) leaves the cursor at an unknown position); pending = the
-   non-skip cells of the buffer in row-major order (RBFlushReach.v).
+   non-skip cells of the buffer in row-major order (RBFlushReach.v); tcellat t y x = the cell
+   of terminal t at line y, column x; term_ok = the terminal's grid has t_lines rows of t_cols
+   cells; over c d = what a terminal cell shows when buffer cell c is flushed over it (d itself
+   for a Skip cell); narrow u = every code point of u has width one.
    This file contains nothing but the property theorems, each closed by [exact <lemma>]. *)
 From Coq Require Import ZArith List Bool.
 From Tickit Require Import RectDefs RBDefs RBSpec RBAbsLemmas RBInv RBProofs Gen_Linechars RBGlyphs RBGlyphProofs
-                           RBFlushDefs RBFlushSpec RBFlushProofs RBProps RBWidth RBFlushCols RBFlushReach.
+                           RBFlushDefs RBFlushSpec RBFlushProofs RBProps RBWidth RBFlushCols RBFlushReach RBTermSim RBFlushGrid.
 Import ListNotations.
 Local Open Scope Z_scope.
 
@@ -87,24 +90,77 @@ Theorem C04_content_invariant : forall A o, op_ok o -> ashape A -> acells_ok A -
 Proof. exact astep_aok. Qed.
 Print Assumptions C04_content_invariant.
 
-(* NOT PROVED (full statement; carried by the correspondence check as testing: the exact
-   operation log and final grid of the C against this model, and the C's own observations
-   against flush_checkb, over all programs of <= 3 ops on 2x6, all 255 masks, every text of a
-   width-mix family cut at every column, and random programs):
+(* The terminal model executes any list of operations exactly as the grid-free description
+   [paint] says (goto within the terminal, prints of width-one strings that fit, erases that
+   fit): no fault, and every cell is the last thing written to it, or what it was. *)
+Theorem C04_terminal_executes : forall ops t cur w cur' pen',
+  term_ok t -> cur_match t cur ->
+  paint (t_lines t) (t_cols t) cur (t_cur t) ops = Some (w, cur', pen') ->
+  exists t', t_run t ops = Ok t' /\ term_ok t' /\ same_frame t t' /\ t_cur t' = pen' /\ cur_match t' cur' /\
+    forall y x, 0 <= y < t_lines t -> 0 <= x < t_cols t -> tcellat t' y x = look w (y, x) (tcellat t y x).
+Proof. exact t_run_paint. Qed.
+Print Assumptions C04_terminal_executes.
+
+(* THE PROPERTY, for buffers whose texts consist of width-one characters (ASCII, Latin-1, box
+   drawing ...): flushing onto ANY terminal at least as large as the buffer -- whatever its
+   content, cursor and pen, and whether or not its erasech(MAYBE) moves the cursor -- the
+   terminal executes the emitted operations without fault, and afterwards every terminal cell
+   under a pending buffer cell shows that cell's content (the text's own character for that
+   column, a blank for Erase, the code point for Char, the table's glyph for Line) in that
+   cell's pen, and EVERY other cell of the terminal is what it was. *)
+Theorem C04_flush_grid : forall s t0 ops s',
+  Inv s -> acells_ok (abs_rb s) -> anarrow (abs_rb s) ->
+  term_ok t0 -> rb_lines s <= t_lines t0 -> rb_cols s <= t_cols t0 ->
+  flush s = Ok (ops, s') ->
+  exists t1, t_run t0 ops = Ok t1 /\ term_ok t1 /\ same_frame t0 t1 /\
+    forall y x, 0 <= y < t_lines t0 -> 0 <= x < t_cols t0 ->
+      tcellat t1 y x =
+      if (y <? rb_lines s) && (x <? rb_cols s)
+      then over (ac (gcell (ag (abs_rb s)) y x)) (tcellat t0 y x)
+      else tcellat t0 y x.
+Proof. exact flush_grid_narrow. Qed.
+Print Assumptions C04_flush_grid.
+
+(* ... for every buffer reached by a drawing program (line styles 1..3, texts and characters of
+   width one), stated against the specification's grid of C03. *)
+Theorem C04_flush_grid_reachable : forall L C prog s v t0,
+  0 <= L -> 0 <= C -> Forall op_ok prog -> Forall op_narrow prog -> run (rb_new L C) prog = Ok (s, v) ->
+  term_ok t0 -> L <= t_lines t0 -> C <= t_cols t0 ->
+  exists ops t1, flush s = Ok (ops, reset s) /\ t_run t0 ops = Ok t1 /\ term_ok t1 /\ same_frame t0 t1 /\
+    forall y x, 0 <= y < t_lines t0 -> 0 <= x < t_cols t0 ->
+      tcellat t1 y x =
+      if (y <? L) && (x <? C)
+      then over (ac (gcell (ag (fst (arun (a_new L C) prog))) y x)) (tcellat t0 y x)
+      else tcellat t0 y x.
+Proof. exact flush_grid_reachable. Qed.
+Print Assumptions C04_flush_grid_reachable.
+
+(* Clause 5 of the oracle's flush_checkb (overlay_checkb, evaluated on the grid the C
+   implementation left) is the statement of C04_flush_grid. *)
+Theorem C04_flush_overlay : forall s t0 ops s',
+  Inv s -> acells_ok (abs_rb s) -> anarrow (abs_rb s) ->
+  term_ok t0 -> rb_lines s <= t_lines t0 -> rb_cols s <= t_cols t0 ->
+  flush s = Ok (ops, s') ->
+  exists t1, t_run t0 ops = Ok t1 /\ overlay_checkb (ag (abs_rb s)) (tg t0) (tg t1) = true.
+Proof. exact flush_overlay. Qed.
+Print Assumptions C04_flush_overlay.
+
+(* NOT PROVED: WHAT is shown in the cells of a text containing double-width or zero-width
+   characters (C04_flush_columns proves WHERE the flush writes for those too, and
+   C04_text_columns that the span's width is kept).  Full statement:
 
    C04_flush_full : forall s t0 ops s',
      Inv s -> acells_ok (abs_rb s) ->
-     t_lines t0 >= rb_lines s -> t_cols t0 >= rb_cols s -> (cursor of t0 anywhere, pen anything) ->
+     term_ok t0 -> rb_lines s <= t_lines t0 -> rb_cols s <= t_cols t0 ->
      flush s = Ok (ops, s') ->
      exists t1, t_run t0 ops = Ok t1 /\
-       grid_meets (ag (abs_rb s)) (tg t0) (tg t1) = true.       (* every cell shows its own text
-                                                                    with its own pen *)
+       grid_meets (ag (abs_rb s)) (tg t0) (tg t1) = true.
 
-   What is proved of it above: WHERE everything is written (C04_flush_columns) and that the
-   flush is total (C04_flush_total_and_resets).  What is missing is WHAT is written there: the
-   simulation of the operations against the mock terminal's grapheme loop (t_print_loop), i.e.
-   that printing the slice of a string puts each character's text into the cell of its column
-   and that the pen in force is the span's. *)
+   What is missing: the mock terminal's grapheme loop (t_print_loop) on strings with width-0 and
+   width-2 characters -- each grapheme in the cell of its first column, an empty continuation
+   cell in the second -- and its agreement with expect_cell's grapheme arithmetic.  Carried by
+   the correspondence check as testing (exact grid of the C against the model, and grid_meets on
+   the C's own grid, over width-mix texts cut at every column). *)
 
 Example C04_nonvacuous :
   exists s v ops, run (rb_new 1 6) [OTextAt 0 0 [0xff21; 98; 99]; OCharAt 0 0 120; OHLine 0 4 5 2 3] = Ok (s, v) /\
